@@ -2014,6 +2014,8 @@ def fc_ctor_case(cls_name: str, param: str, junk: list[int], which: int, hold: b
         val = object() if val is object else val
         kw = dict(_fc_required(cls_name))
         kw[ID_PARAMS[cls_name]] = _fc_target(v, cls_name, which)
+        if cls_name == 'Entity':    # a nav-node entity: the node ID a live entity holds is requested too (registered key by key, before later steps can raise)
+            kw['keys'] = {'classname': 'info_node', 'nodeid': str(scan_map(v)['node'][0])}
         kw[param] = val
         try:
             cls(v, **kw)
